@@ -608,4 +608,16 @@ def Pfam.fromBio (b : Bio) : E Pfam := do
   let d ← Dom.fromBio .pfam ⟨b.loc, b.type, l⟩
   pure ⟨d, x⟩
 
+/-! ### `ExternalCDSMotif`: a `CDS_motif` of another tool keeps the qualifiers it arrived with -/
+
+/-- the qualifiers the parent classes write only because they need *some* value -/
+def extPlaceholders : List String := ["aSTool", "protein_start", "protein_end", "locus_tag"]
+
+/-- `ExternalCDSMotif.to_biopython`: `written` is what `CDSMotif.to_biopython` produced; the placeholders are removed,
+    then the original qualifiers are put back (`dict.update`: an original `locus_tag` returns, at the end) -/
+def extWrite (written original : Quals) : Quals := Q.update (extPlaceholders.foldl Q.erase written) original
+
+/-- the other order — originals first, placeholders removed afterwards — for comparison -/
+def extWriteRestoreFirst (written original : Quals) : Quals := extPlaceholders.foldl Q.erase (Q.update written original)
+
 end ASV.Serial
